@@ -92,6 +92,12 @@ Laws(s, v) ==
 
 \* ValidateDefaults: every default validates against the subschema that declares it
 Single(s) == [docs |-> <<[uri |-> EmptyURI, s |-> s]>>]
+\* (U: the root document first, then whatever the Loader serves; only the ROOT document's tree is walked)
+DefaultsValidU(U) ==
+  LET s == U.docs[1].s
+  IN \A p \in AllPaths(s) :
+       LET n == NodeAtS(s, p)
+       IN (IsObjS(n) /\ "default" \in DOMAIN n) => Ev(U, "2020", Addr(1, p), n.default, <<>>).ok
 DefaultsValid(s) ==
   \A p \in AllPaths(s) :
      LET n == NodeAtS(s, p)
